@@ -1,3 +1,4 @@
+import Oidc.Shapes
 import Oidc.Proofs.CacheLru
 import Oidc.Proofs.CacheImpl
 import Oidc.Facts
@@ -79,5 +80,14 @@ example : (run false (init 2) [.set 0 "a" 1 100, .set 1 "b" 2 100, .get 2 "a", .
 
 example : (Oidc.CacheImpl.run false (Oidc.CacheImpl.init 2) [.set 0 "a" 1 100, .set 1 "b" 2 100, .get 2 "a", .set 3 "c" 3 100]).order
     = ["a", "c"] := by decide
+
+/-! obligations against the regenerated program text: the six methods of cache.go read, statement for statement, as they did
+    when the three-structure model `Oidc.CacheImpl` was written after them (`Oidc/Shapes.lean`) -/
+theorem text_Cache_Set_ok : Oidc.Shapes.Text_Cache_Set := by unfold Oidc.Shapes.Text_Cache_Set; rfl
+theorem text_Cache_Get_ok : Oidc.Shapes.Text_Cache_Get := by unfold Oidc.Shapes.Text_Cache_Get; rfl
+theorem text_Cache_Delete_ok : Oidc.Shapes.Text_Cache_Delete := by unfold Oidc.Shapes.Text_Cache_Delete; rfl
+theorem text_Cache_Cleanup_ok : Oidc.Shapes.Text_Cache_Cleanup := by unfold Oidc.Shapes.Text_Cache_Cleanup; rfl
+theorem text_Cache_evictOldest_ok : Oidc.Shapes.Text_Cache_evictOldest := by unfold Oidc.Shapes.Text_Cache_evictOldest; rfl
+theorem text_Cache_removeItem_ok : Oidc.Shapes.Text_Cache_removeItem := by unfold Oidc.Shapes.Text_Cache_removeItem; rfl
 
 end Oidc.Props.C13
